@@ -214,6 +214,14 @@ pub fn run(tier: Tier, seed: u64, o: &mut Out) {
         Tier::Quick => 700,
         Tier::Thorough => 20000,
     };
+    // corpus: the cases pinned as refutation theorems on the model (D5, D6: Properties/C05.v; D10: Cert/D10Witness.v)
+    for line in [
+        "(pgmcase c02 (((((2 2) (2 0)) ((0 1 1 0) (0 0 0 1))) 0)) (((2 2) (2 0)) ((0 1 1 0) (0 0 0 1))) default)",
+        "(pgmcase c02 (((((0 1) (1 1) (2 0) (0 1)) ((0 0 1 0) (1 0 2 0) (3 0 2 1))) 0)) (((0 1) (1 2) (2 0) (0 1)) ((0 0 1 0) (1 0 2 0) (3 0 2 1))) default)",
+        "(pgmcase c04 (((((3 1) (1 2)) ((1 1 0 0) (0 0 0 1))) 1) ((((1 2) (2 2) (1 2)) ((1 1 0 0) (1 0 2 0))) 0)) (((1 1) (2 2) (1 2) (1 2)) ((1 0 0 0) (1 1 2 0) (0 0 3 0) (2 1 1 0) (3 1 1 1))) default)",
+    ] {
+        replay(line, o);
+    }
     for _ in 0..n {
         let pats = pg::gen_pats(&mut rng);
         let hosts: Vec<G> = (0..rng.range(1, 3)).map(|_| pg::gen_host(&mut rng, &pats)).collect();
